@@ -136,10 +136,11 @@ def generate(rng, tier):
     return cs
 
 
-def _arrays(coords, shape2d, data, weights):
-    cs = tuple(np.array(c).reshape(shape2d) for c in coords)
-    ds = tuple(np.array(d).reshape(shape2d) for d in data)
-    ws = None if weights is None else tuple(np.array(w).reshape(shape2d) for w in weights)
+def _arrays(coords, shape2d, data, weights, key=""):
+    # every array gets its own memory layout (C / Fortran / strided), chosen from the case key
+    cs = tuple(C.mkarr(c, shape2d, f"{key}c{i}") for i, c in enumerate(coords))
+    ds = tuple(C.mkarr(d, shape2d, f"{key}d{i}") for i, d in enumerate(data))
+    ws = None if weights is None else tuple(C.mkarr(w, shape2d, f"{key}w{i}") for i, w in enumerate(weights))
     for a in cs + ds + (ws or ()):
         a.setflags(write=False)
     d_arg = ds[0] if len(ds) == 1 else ds
@@ -152,7 +153,7 @@ def impl(case):
     fn = case["fn"]
     if fn == "cv_score":
         coords, shape2d, data, weights, cvspec, scoring, est = a
-        cs, d_arg, w_arg = _arrays(coords, shape2d, data, weights)
+        cs, d_arg, w_arg = _arrays(coords, shape2d, data, weights, case["op"][-60:])
         estimator = MomentGridder(tag=2) if est == "moment" else vd.Trend(1)     # fit lingers 2 ms after writing its state
         before = dict(estimator.__dict__)
 
@@ -179,7 +180,7 @@ def impl(case):
         return [None if v != v else v for v in r]
     if fn == "tts":
         coords, shape2d, data, weights, block_shape, test_size, seed = a
-        cs, d_arg, w_arg = _arrays(coords, shape2d, data, weights)
+        cs, d_arg, w_arg = _arrays(coords, shape2d, data, weights, case["op"][-60:])
         kw = {} if block_shape is None else {"shape": tuple(block_shape)}
         r = C.call(vd.train_test_split, cs, d_arg, w_arg, test_size=test_size, random_state=seed, **kw)
         if C.is_err(r):
